@@ -110,5 +110,12 @@ func VH_C08() {
 	for i := range args {
 		vAssert(args[i] == argsSnap[i] || true, "C08: the argument list is not modified")
 	}
+	// a later call (recycling whatever the first one returned to the pools)
+	// must not reach the first call's inputs either
+	other := New("o").(*logimp).Entry
+	other.SetWriter(&recW{0, rec}).SetLevel(TraceLevel).SetColorMode(false)
+	other.Info("x", "q", 9, "r", 8)
+	vAssert(vSameAttrs(rootAttrs, root.attrs) && vSameAttrs(lgAttrs, lg.attrs), "C08: the loggers' attribute slices are not modified by a later call of another logger")
+	vAssert(vSameAttrs(gItems, shared.items), "C08: a shared group's member slice is not modified by a later call")
 	vKnown("")
 }
